@@ -261,7 +261,7 @@ def _variants():
     o["U.logv:forms"] = lambda c: U.logv(c.flow(0.03, n=1), num_iters=c.pick([0, 1, 2]), bch_terms=c.pick([0, 1, 2]), sigma=c.pick([None, 1.0]), exp_steps=c.pick([None, 3]), align_corners=c.pick([True, False]))
     # ---- losses: reductions, weights, masks, degenerate parameters
     for n in ["l1_loss", "mae_loss", "mse_loss", "ssd_loss", "huber_loss", "smooth_l1_loss"]:
-        o["L." + n + ":forms"] = (lambda c, n=n: getattr(L, n)(*c.img_pair(), mask=c.pick([None, c.mask(), c.maskC()]), norm=c.pick([None, 1.0, 2.0, torch.tensor(2.0)]), reduction=c.pick(RED)))
+        o["L." + n + ":forms"] = (lambda c, n=n: getattr(L, n)(*c.img_pair(), mask=c.pick([None, c.mask(), c.maskC()]), norm=c.pick([None, 1.0, 2.0, c.scalar(2.0), c.scalar(0.5, (1,))]), reduction=c.pick(RED)))
     o["L.ncc_loss:forms"] = lambda c: L.ncc_loss(*c.img_pair(), mask=c.pick([None, c.mask(), c.maskC()]), reduction=c.pick(RED))
     o["L.lcc_loss:forms"] = lambda c: L.lcc_loss(*c.img_pair(), mask=c.pick([None, c.mask(), c.maskC()]), kernel_size=c.pick([1, 3, 5]), reduction=c.pick(RED))
     o["L.wlcc_loss:forms"] = lambda c: L.wlcc_loss(*c.img_pair(), mask=c.maybe(c.mask), source_mask=c.maybe(c.mask), target_mask=c.maybe(c.mask), kernel_size=c.pick([1, 3]), reduction=c.pick(RED))
@@ -279,7 +279,7 @@ def _variants():
     o["L.label_smoothing:forms"] = lambda c: L.label_smoothing(c.pick([c.labels, c.prob])(), num_classes=c.pick([None, 3]), ignore_index=c.pick([None, 0]), alpha=c.pick([0, 0.1, 1.0]))
     o["L.masked_loss:forms"] = lambda c: L.masked_loss(c.img(), c.pick([None, c.mask(), c.maskC()]), inplace=False)
     o["L.reduce_loss:forms"] = lambda c: L.reduce_loss(c.img(), c.pick(RED), mask=c.pick([None, c.mask(), c.maskC()]))
-    o["L.elementwise_loss:forms"] = lambda c: L.elementwise_loss("x", c.pick([torch.nn.functional.l1_loss, torch.nn.functional.mse_loss]), *c.img_pair(), mask=c.pick([None, c.mask()]), norm=c.pick([None, 1.0, 2.0]), reduction=c.pick(RED))
+    o["L.elementwise_loss:forms"] = lambda c: L.elementwise_loss("x", c.pick([torch.nn.functional.l1_loss, torch.nn.functional.mse_loss]), *c.img_pair(), mask=c.pick([None, c.mask()]), norm=c.pick([None, 1.0, 2.0, c.scalar(2.0)]), reduction=c.pick(RED))
     o["L.inverse_consistency_loss:forms"] = lambda c: L.inverse_consistency_loss(c.flow(0.05), c.flow(0.05), grid=c.pick([None, c.grid]), margin=c.pick([0, 1, 0.1]), mask=c.pick([None, c.mask()]),
                                                                                   units=c.pick(["cube", "voxel", "world"]), reduction=c.pick(RED))
     for n in ["be_loss", "bending_energy", "bending_loss", "curvature_loss", "diffusion_loss", "divergence_loss", "total_variation_loss", "tv_loss"]:
@@ -289,6 +289,22 @@ def _variants():
                                                                 mode=c.pick([None, "central"]), spacing=c.pick(SP), reduction=c.pick(RED))
     for n in ["bspline_be_loss", "bspline_bending_energy", "bspline_bending_loss"]:
         o["L." + n + ":forms"] = (lambda c, n=n: getattr(L, n)(c.flow(), stride=c.pick([1, 2, (1, 2) + (1,) * (c.D - 2)]), reduction=c.pick(RED)))
+    o["U.rescale:tensors"] = lambda c: U.rescale(c.img(), min=c.scalar(0.0), max=c.scalar(1.0), data_min=c.pick([None, c.scalar(-3.0)]), data_max=c.pick([None, c.scalar(3.0)]))
+    o["U.threshold:tensors"] = lambda c: U.threshold(c.img(), c.pick([None, c.scalar(-0.5)]), c.pick([None, c.scalar(0.5)]))
+    o["U.pad:value"] = lambda c: U.pad(c.img(), margin=c.pick([1, 0]), mode="constant", value=c.pick([1.5, c.scalar(1.5)]))
+    o["U.center_pad:value"] = lambda c: U.center_pad(c.img(), 8, mode="constant", value=c.pick([1.5, c.scalar(1.5)]))
+    o["U.fill_border:value"] = lambda c: U.fill_border(c.img(), 1, value=2.0, inplace=False)
+    o["U.grid_sample:padtensor"] = lambda c: U.grid_sample(c.img(), c.coords(), padding=c.pick([c.scalar(1.5), 0.5]))
+    o["U.warp_image:padtensor"] = lambda c: U.warp_image(c.img(), c.coords(), flow=c.maybe(c.disp_last), padding=c.pick([c.scalar(1.0), 1.0]))
+    o["U.avg_pool:divisor"] = lambda c: U.avg_pool(c.img(), 2, divisor_override=c.pick([None, 3, c.scalar(3.0)]))
+    o["U.derivatives:spacing"] = lambda c: c.pick([U.divergence, U.jacobian_det, U.curl, U.jacobian_matrix])(c.flow(), spacing=c.spacing_arg(), mode=c.pick([None, "central", "forward"]))
+    o["U.spatial_derivatives:spacing"] = lambda c: U.spatial_derivatives(c.img(), which=c.pick(["x", ["x", "y"]]), spacing=c.spacing_arg(), mode=c.pick([None, "central", "bspline"]))
+    o["U.flow_derivatives:spacing"] = lambda c: U.flow_derivatives(c.flow(), which="du/dx", spacing=c.spacing_arg())
+    o["U.finite_differences:spacing"] = lambda c: U.finite_differences(c.img(), c.pick([0, 1]), spacing=c.pick([1.0, 2.0, tuple([1.0, 2.0, 0.5][: c.D])]))
+    o["U.grid_resample:tensors"] = lambda c: U.grid_resample(c.img(), c.pick([1.0, c.scalar(1.0), c.scalar(1.0, (c.D,))]), c.pick([1.0, 2.0, c.scalar(2.0), c.scalar(1.0, (c.D,))]))
+    o["U.grid_resize:tensor"] = lambda c: U.grid_resize(c.img(), torch.tensor(tuple(reversed(c.shape_plus(c.pick([0, 1]))))))
+    o["L.flow_losses:spacing"] = lambda c: getattr(L, c.pick(["bending_loss", "curvature_loss", "diffusion_loss", "divergence_loss", "total_variation_loss", "grad_loss"]))(c.flow(), spacing=c.spacing_arg())
+    o["L.elasticity_loss:spacing"] = lambda c: L.elasticity_loss(c.flow(), first_parameter=1.0, second_parameter=0.5, spacing=c.spacing_arg())
     return o
 
 
@@ -301,7 +317,7 @@ def _loss_modules():
     MODES = [None, "forward", "central", "forward_central_backward", "bspline", "sobel"]
 
     def norm_arg(c):
-        return c.pick([None, None, True, False, torch.tensor(2.0)])
+        return c.pick([None, None, True, False, c.scalar(2.0), c.scalar(0.5, (1,))])
 
     for n in ["SSD", "L2ImageLoss", "L1ImageLoss", "HuberImageLoss", "SmoothL1ImageLoss"]:
         def f(c, n=n):
